@@ -4,13 +4,17 @@
 
    trace lines (ndjson); every case starts with a reset:
      {"ev":"reset","case":n,"hdr":{"kind":"rt"}}                      one message through the library round trip
-     {"ev":"rt","m":M,"p1":P,"w1":W,"p2":P,"w2":W2}
+     {"ev":"rt","m":M,"p1":P,"w1":W,"p2":P,"w2":W2,"wx":[X,...]}
          M  = original fields: weid wsid wtms ueh msbf (bool) vers mcnt micros payLen len (int)
               ecuSto ecuStd sid tmsp secs (4 bytes, [] if absent) ext (10 bytes or []) pay ([hash,hash'])
          P  = {"ok":b,"consumed":k,"v":VIEW}   result of parse_dlt_with_storage_header (p1: original bytes, p2: bytes of w1)
          VIEW = ecu secs tmsp (4 bytes) micros mcnt payLen htyp (int) wtms msbf hasExt (bool) ext (10 bytes or []) pay
          W  = {"ok":b,"bytes":k,"htyp":h,"len":n}   first to_write: bytes written, htyp byte and len field found in them
          W2 = {"ok":b,"equal":b}                    to_write of the re-parsed message: byte-identical to w1
+         X  = {"weid":b,"wsid":b,"ok":b,"bytes":k,"htyp":h,"len":n,"p":P,"w":W2}
+              the parsed message written through DltStandardHeader::to_write directly WITH its ECU id (weid) and / or a
+              session id (wsid) in the standard header, behind the storage header of w1; p = parse of those bytes,
+              w = DltMessage::to_write of that re-read message compared with w1 (only variants that fit the len field)
      {"ev":"reset","case":n,"hdr":{"kind":"file","n":N}}              one generated file through `adlt convert -o`
      {"ev":"fmsg","i":i,"m":M,"v":VIEW}        i-th message of the exported file next to the i-th original
      {"ev":"fend","rc1":c,"rc2":c,"n_out":k,"trailing":t,"second_identical":b}
@@ -56,13 +60,22 @@ RoundTripOk(e) == /\ e.w1.ok
                   /\ e.p2.ok /\ e.p2.consumed = e.w1.bytes
                   /\ SameListed(e.p2.v, e.p1.v)
                   /\ e.w2.ok /\ e.w2.equal
+\* the same message written with ECU id / session id in the standard header reads back as the same message, eats exactly
+\* the bytes written, and exporting the re-read message gives the bytes of the plain export
+WxOk(e, x) == L!FitsX(L!ParseView(e.m), x.weid, x.wsid) =>
+                 /\ x.ok
+                 /\ x.p.ok /\ x.p.consumed = x.bytes
+                 /\ SameListed(x.p.v, e.p1.v)
+                 /\ x.w.ok /\ x.w.equal
 RtOk(e) == /\ L!WellFormed(e.m)                          \* the driver stayed inside the domain
            /\ (e.m.vers = 1 => e.p1.ok)
-           /\ (e.p1.ok => OrigOk(e) /\ RoundTripOk(e))
+           /\ (e.p1.ok => OrigOk(e) /\ RoundTripOk(e) /\ \A i \in 1..Len(e.wx) : WxOk(e, e.wx[i]))
 \* design drift only: the writer's choice of flags / len against Layout's normal form
 NormalFormSeen(e) == LET w == L!Write(L!ParseView(e.m)) IN
                        /\ e.w1.htyp = L!htyp(w) /\ e.w1.len = w.len /\ e.w1.bytes = L!WrittenBytes(L!ParseView(e.m))
                        /\ e.p1.v.htyp = L!htyp(e.m)          \* the parser keeps the header byte verbatim (design, not contract)
+                       /\ \A i \in 1..Len(e.wx) : LET x == e.wx[i]  wx == L!WriteX(L!ParseView(e.m), x.weid, x.wsid, <<>>) IN
+                             L!FitsX(L!ParseView(e.m), x.weid, x.wsid) => (x.htyp = L!htyp(wx) /\ x.len = wx.len)
 
 Rt == /\ Ev("rt") /\ phase = "running" /\ hdr.kind = "rt"
       /\ RtOk(Cur)
